@@ -310,6 +310,61 @@ func (w *World) TxBuildBattery(exp *Expect, seed int64, sweep bool) (lines []jso
 				finish(l, raw, f, err, false, ci)
 			})
 		}
+		// explicit inputs: every free ordinary coin at once (sibling outputs of one previous transaction,
+		// several addresses, several amounts in ONE signing call)
+		{
+			var ins []*masswallet.TxIn
+			var ids []string
+			var sum int64
+			for _, c := range coinsNow() {
+				if c.Mature && (c.Class == "std" || c.Class == "cb") && !c.Sbu && !c.Reserved {
+					if h, vout, ok := w.outpointOf(c.ID); ok {
+						ins = append(ins, &masswallet.TxIn{TxId: h.String(), Vout: vout})
+						ids = append(ids, c.ID)
+						sum += c.Amt
+					}
+				}
+			}
+			if len(ins) >= 2 {
+				amtOut := sum - Unit/20
+				l := &tbLine{Kind: "manual", Wallet: name, Coins: coinsNow(), Req: tbReq{Outs: []tbOut{{To: "S1", Amt: amtOut}}, Fee: 0, Subfee: []string{}, Inputs: ids, Valid: true}}
+				protect(l, func() {
+					raw, f, err := w.W.CreateRawTransaction(ins, map[string]massutil.Amount{resolveAddr("S1"): mustAmount(amtOut)}, 0, "", map[string]struct{}{})
+					finish(l, raw, f, err, false, len(ins))
+				})
+			}
+		}
+		// staking and binding deposits paid from ONE address of the wallet: as much as that address holds
+		// (cannot be paid: the fee is missing) and a little less
+		for k := 0; k < 2; k++ {
+			var addrTotal int64
+			sym := fmt.Sprintf("%s:%d", name, k)
+			for _, c := range coinsNow() {
+				if c.Mature && (c.Class == "std" || c.Class == "cb") && !c.Sbu && !c.Reserved && c.Addr == sym {
+					addrTotal += c.Amt
+				}
+			}
+			if addrTotal < 3*Unit {
+				continue
+			}
+			for vi, amtReq := range []int64{addrTotal, addrTotal - Unit} {
+				amtReq := amtReq
+				l := &tbLine{Kind: "staking", Wallet: name, Coins: coinsNow(), Req: tbReq{Outs: []tbOut{{To: name + ":2", Amt: amtReq}}, From: sym, Subfee: []string{}, Inputs: []string{}, Valid: true}}
+				protect(l, func() {
+					raw, f, err := w.W.CreateStakingTransaction(wl.Keys[k].Std, []*masswallet.StakingTxOut{{Address: wl.Keys[2].Staking, FrozenPeriod: uint32(w.U.MinFrozen + 1), Amount: mustAmount(amtReq)}}, 0, massutil.ZeroAmount())
+					finish(l, raw, f, err, false, 6+vi)
+				})
+				if !forks.EnforceMASSIP0002WarmUp(uint64(exp.Synced) + 1) {
+					holder, _ := massutil.DecodeAddress(wl.Keys[0].Std, config.ChainParams)
+					target, _ := massutil.NewAddressPubKeyHash(BindTarget("battery-from", 20), config.ChainParams)
+					l := &tbLine{Kind: "binding", Wallet: name, Coins: coinsNow(), Req: tbReq{Outs: []tbOut{{To: name + ":0", Amt: amtReq}}, From: sym, Subfee: []string{}, Inputs: []string{}, Valid: true}}
+					protect(l, func() {
+						raw, f, err := w.W.CreateBindingTransaction(wl.Keys[k].Std, massutil.ZeroAmount(), []*masswallet.BindingOutput{{Holder: holder, BindingTarget: target, Amount: mustAmount(amtReq)}})
+						finish(l, raw, f, err, false, 8+vi)
+					})
+				}
+			}
+		}
 		// staking and binding deposits built by the wallet
 		if eligTotal > 3*Unit {
 			l := &tbLine{Kind: "staking", Wallet: name, Coins: coinsNow(), Req: tbReq{Outs: []tbOut{{To: name + ":2", Amt: 2 * Unit}}, Subfee: []string{}, Inputs: []string{}, Valid: true}}
@@ -432,22 +487,22 @@ func (w *World) signAndVerify(l *tbLine, mtx *wire.MsgTx, wallet string, flagIdx
 
 // engineOK runs every input through the consensus script engine against the output it spends.
 func (w *World) engineOK(stx *wire.MsgTx) bool {
-	ok := true
+	good := true
 	hc := txscript.NewTxSigHashes(stx)
 	for i, in := range stx.TxIn {
 		name := w.nameOf(in.PreviousOutPoint.Hash.String())
-		prev, ok := w.Tx[name]
-		if !ok || int(in.PreviousOutPoint.Index) >= len(prev.TxOut) {
-			ok = false
+		prev, found := w.Tx[name]
+		if !found || int(in.PreviousOutPoint.Index) >= len(prev.TxOut) {
+			good = false
 			continue
 		}
 		po := prev.TxOut[in.PreviousOutPoint.Index]
 		vm, err := txscript.NewEngine(po.PkScript, stx, i, txscript.StandardVerifyFlags, nil, hc, po.Value)
 		if err != nil || vm.Execute() != nil {
-			ok = false
+			good = false
 		}
 	}
-	return ok
+	return good
 }
 
 // ReplayTxBuild replays the history (plain conformance) and, at its end, runs the battery.
